@@ -435,7 +435,10 @@ func oracleC06StringBoundary(f PbfFile, below int) {
 	m := pbfMaxRef(*last)
 	vAssume(m >= 1)
 	cut := m - pbfAbs(below)%3 // table length = largest reference, or one or two less
-	vAssume(cut >= 1)
+	if pbfAbs(below)%5 == 4 {
+		cut = -1 // no string table entries at all: nothing of an earlier block's table may be used instead
+	}
+	vAssume(cut >= 1 || cut == -1)
 	last.CutStrings = cut
 	data, _, objs := pbfBuild(f)
 	res := pbfScan(data, 1, nil, 0)
